@@ -91,6 +91,57 @@ CLAIMED = {
              "or NamespaceInfo.name', the list of event-bearing blob fields. Recursion bound: each message type at most twice per path.",
         technique="bounded-exhaustive enumeration of descriptor paths against a reference translator",
         design_ref="5/C12", engine="B-enum"),
+    "C13": dict(
+        level="exploration",
+        text="Bounded-exhaustive enumeration. (a) Frame: every namespace path of every root type x value classes {mapped, unmapped, proper "
+             "prefix, mapped+suffix, empty, range-only} and the fully populated message per root and class, through the namespace and "
+             "search-attribute translators: result equals the reference (only exact matches change) and messages with nothing to map are "
+             "byte-identical after deterministic marshalling (blobs not re-encoded). (b) All one-to-one mappings over {a,b,c,d} with <=2 "
+             "(thorough 3) pairs incl. identity pairs and chains x request/response roots x names a..e: one translation equals the mapping "
+             "applied exactly once; response-after-request restores the message for unambiguous names. (c) Direction: every unary method of "
+             "both services through both servers of a real ClusterConnection (loopback TCP, generic fake clusters) with fully populated "
+             "messages, namespace names and search-attribute keys compared with the reference translation of the right direction. (d) Every "
+             "mapping list of length <=2 (thorough 3) over {a,b,c}x{a,b,c}, for namespaces and for search attributes: NewClusterConnection "
+             "fails iff two pairs share a name with different partners.",
+        note="Trusted: descriptor-driven reference, generic fake backend. Round trip not asserted for names that are only in the range of a "
+             "mapping (ambiguous by configuration); exact duplicate pairs not asserted either way.",
+        technique="bounded-exhaustive enumeration of descriptor paths, mappings and configurations against a reference; end-to-end on a real ClusterConnection",
+        design_ref="5/C13", engine="B-enum"),
+    "C14": dict(
+        level="exploration",
+        text="Bounded-exhaustive enumeration: every structural path from an AdminService request/response/stream message to a search-attribute "
+             "container (typed SearchAttributes and bare map<string,Payload>), directly and through the event-bearing blobs, x key sets "
+             "{mapped only, unmapped only, mixed 8 keys, empty, absent}: after the real translator the container holds exactly the reference "
+             "key set with the identical payloads and its nil-ness preserved. Exclusion: for every WorkflowService message every container "
+             "path with keys spelled like mapped keys, through the real TranslationInterceptor, must come out unchanged. Direction: every "
+             "unary method through both servers of a real ClusterConnection with a search-attribute mapping.",
+        note="Trusted: reference definition of a container; unmapped keys never equal a mapping target (statement's precondition). Go's random "
+             "map iteration order inside translateIndexedFields is not enumerated (stated in evidence).",
+        technique="bounded-exhaustive enumeration of descriptor paths x key-set classes against a reference; end-to-end direction check",
+        design_ref="5/C14", engine="B-enum"),
+    "C15": dict(
+        level="exploration",
+        text="Bounded-exhaustive enumeration on a real ClusterConnection (loopback TCP) with an ACL policy and a generic fake local cluster that "
+             "records every call: allow-list families {empty=unrestricted, full, non-existent names only, singleton and complement-of-singleton "
+             "for a fixed selection of admin methods (all 68 in thorough)} x EVERY method of AdminService and WorkflowService from the service "
+             "descriptors (the streaming method opened as a stream) x {no header, translation-bypass header}: a method outside a non-empty "
+             "list is answered PermissionDenied and the local cluster records nothing, a listed method is forwarded exactly once, "
+             "Register/DeprecateNamespace are always refused under a policy; every unary admin method through the outbound server is forwarded.",
+        note="Transport: TCP only. The mux transports build their gRPC server through the same buildProxyServer/makeServerOptions with the same "
+             "serverConfiguration; they are not driven end to end (needs a yamux peer) - see DESIGN.md.",
+        technique="bounded-exhaustive enumeration of methods x allow-list families on a running proxy",
+        design_ref="5/C15", engine="B-enum"),
+    "C16": dict(
+        level="exploration",
+        text="Bounded-exhaustive enumeration. Chain level: every request type of both services x every structural namespace path (incl. "
+             "blob-encoded) x {forbidden here only, allowed here + forbidden at the next path, allowed everywhere} x {bypass header, none} "
+             "through ACL alone and translation->ACL in the order makeServerOptions installs them, plus remote names mapping to an allowed / "
+             "forbidden local name; all other namespace fields hold allowed names so that 'here only' is not vacuous. Wiring level: real "
+             "ClusterConnection with namespace allow-list and mapping: every unary method with a namespace path x six name classes x header; "
+             "ListNamespaces with every subset of three namespaces returns exactly the allowed ones (translated), order kept.",
+        note="Empty namespace fields are not asserted either way (the statement speaks of requests that name a different namespace).",
+        technique="bounded-exhaustive enumeration of descriptor paths x name classes through the real interceptor chain and a running proxy",
+        design_ref="5/C16", engine="B-enum"),
     "C20": dict(
         level="model_checking",
         text="Bounded-exhaustive histories of stream opens on the real StreamWorkflowReplicationMessages handler with the real "
@@ -159,7 +210,7 @@ def main():
         "engines": [
             {"name": "B-seq", "path": "/verif/harness", "serves_properties": ["C05"],
              "kind_free_text": "explicit-state / bounded-exhaustive enumeration driving the real code in-package"},
-            {"name": "B-enum", "path": "/verif/harness", "serves_properties": ["C07", "C12"],
+            {"name": "B-enum", "path": "/verif/harness", "serves_properties": ["C07", "C12", "C13", "C14", "C15", "C16"],
              "kind_free_text": "bounded-exhaustive enumeration of a finite structurally defined input space against a reference computed independently"},
             {"name": "A-macro", "path": "/verif/harness/proxy/routing_*.go + /verif/rt/pool.go", "serves_properties": ["C01", "C02", "C03", "C04", "C06", "C20"],
              "kind_free_text": "explicit-state BFS whose transitions are executions of the real goroutines in testing/synctest bubbles; "
